@@ -63,6 +63,7 @@ def run(ctx):
                            "TomlVerif.Gen.CheckLex": "table theorems: byte classes (ASCII-only classes feed from_utf8_unchecked)",
                            "TomlVerif.Props.C04": "property theorems"})
     audit(ctx, "TomlVerif.Props.C04", "TomlVerif/Props/C04.lean")
+    extra_props(ctx, ["C04Fuel"])
     if ctx.tier == "thorough":
         leanchecker(ctx, "TomlVerif.Props.C04")
     tvh = cargo_build(ctx)      # dev profile: debug assertions and overflow checks on
